@@ -157,6 +157,9 @@ def run_case(case):
     for ep, want in (("lint_path", lint_rc), ("lint_stdin", lint_rc), ("fix_path", fix_rc), ("fix_stdin", fix_rc), ("format_path", format_rc), ("format_stdin", format_rc)):
         res["n"] += 1
         got = obs[ep]["rc"]
+        if obs[ep].get("loop_limit") and any(not w and c not in ("TMP", "PRS") for c, _, _, _, w, _ in (visible_fmt if ep.startswith("format") else visible)):
+            # the linter itself reported that the fix loop gave up: those violations count as unfixable
+            want = 1
         if got != want:
             res["fails"].append({"clause": "exit_code", "features": dict(feats, entry=ep, got=got, want=want), "detail": {"visible": visible, "text": obs["text"]}})
     if base:
